@@ -158,8 +158,9 @@ NestCount(a, b, V) ==
     IN (Prod(ue) \div inner) * ((inner + V - 1) \div V) * (IF FreeLabels(ops) = <<>> THEN 1 ELSE V)
 
 \* L2 => L1: the route executes exactly the terms of the Einstein sum (as many, and the same)
-RouteRefinesL1(route, a, b, V) == /\ RouteTerms(route, a, b, V) = EinsteinTerms(a, b)
-                                  /\ (route = "nest" => NestCount(a, b, V) = NTerms(a, b))
+RouteRefinesTo(want, route, a, b, V) == /\ RouteTerms(route, a, b, V) = want
+                                        /\ (route = "nest" => NestCount(a, b, V) = NTerms(a, b))
+RouteRefinesL1(route, a, b, V) == RouteRefinesTo(EinsteinTerms(a, b), route, a, b, V)
 
 -----------------------------------------------------------------------------------------
 (* Defect classes of the design found by TLC with the obligation above (reported; see notes/c03_*.cpp).          *)
